@@ -190,6 +190,8 @@ func buildFromCSV(tab Table, minimal bool) (qframe.QFrame, bool) {
 	typs := map[string]string{}
 	enumVals := map[string][]string{}
 	seen := map[string]bool{}
+	// an empty field is a null string (EmptyNull) or an empty string: a table that holds both cannot be told
+	hasNullStr, hasEmptyStr := false, false
 	for _, c := range tab.Cols {
 		if c.Name == "" || strings.ContainsAny(c.Name, "\r") || seen[c.Name] {
 			return qframe.QFrame{}, false
@@ -211,7 +213,12 @@ func buildFromCSV(tab Table, minimal bool) (qframe.QFrame, bool) {
 				}
 			}
 			for _, p := range c.S {
-				if p != nil && (*p == "" || strings.ContainsAny(*p, "\r")) {
+				switch {
+				case p == nil:
+					hasNullStr = true
+				case *p == "":
+					hasEmptyStr = true
+				case strings.ContainsAny(*p, "\r"):
 					return qframe.QFrame{}, false
 				}
 			}
@@ -247,7 +254,10 @@ func buildFromCSV(tab Table, minimal bool) (qframe.QFrame, bool) {
 		}
 		sb.WriteByte('\n')
 	}
-	fns := []csv.ConfigFunc{csv.Types(typs), csv.EmptyNull(true)}
+	if hasNullStr && hasEmptyStr {
+		return qframe.QFrame{}, false
+	}
+	fns := []csv.ConfigFunc{csv.Types(typs), csv.EmptyNull(!hasEmptyStr)}
 	if len(enumVals) > 0 {
 		fns = append(fns, csv.EnumValues(enumVals))
 	}
